@@ -1520,7 +1520,7 @@ class MySQLCompiler(
                 "Additional column names not matching "
                 "any column keys in table '%s': %s"
                 % (
-                    self.statement.table.name,  # type: ignore[union-attr]
+                    self.current_executable.table.name,
                     ", ".join("'%s'" % c for c in non_matching),
                 )
             )
